@@ -25,6 +25,8 @@ int total(const int *v, int n);
 double total(const double *v, int n);
 int countNames(char **names, int n);
 int tag(int k, std::string &label);
+#include <cstddef>
+size_t findPos(int k);
 class Tally {
 public:
     static int total();
